@@ -247,6 +247,35 @@ class SInt:
     def __pos__(self):
         return self
 
+    # bit operations and powers reach C code at once (numpy): concretise
+    def __rpow__(self, base):
+        return base ** self._c()
+
+    def __pow__(self, k):
+        return self._c() ** k
+
+    def __and__(self, o):
+        return self._c() & o
+
+    __rand__ = __and__
+
+    def __or__(self, o):
+        return self._c() | o
+
+    __ror__ = __or__
+
+    def __lshift__(self, o):
+        return self._c() << o
+
+    def __rlshift__(self, o):
+        return o << self._c()
+
+    def __rshift__(self, o):
+        return self._c() >> o
+
+    def __rrshift__(self, o):
+        return o >> self._c()
+
     def __abs__(self):
         return SInt(z3.If(self.e >= 0, self.e, -self.e))
 
